@@ -60,6 +60,15 @@ def mirror_cases(chk):
             b = [s * v for v in b]
         npts = rng.choice([1, 1, 2, 3])
         pts = [[rng.choice([FR(0), FR(1), FR(-1), FR(1, 2), FR(5), FR(-7), FR(100)]) for _ in range(n)] for _ in range(npts)]
+        if i % 5 == 0:
+            # a start point 5e-11 (normalised) outside the first face, inside by a wide margin w.r.t. axis-parallel other rows:
+            # the heuristic's own 1e-10 margin decides whether it is returned as is
+            k = rng.choice([1000, 4096, 100000])
+            A = [[FR(k)] + [FR(0)] * (n - 1)] + [[FR(0)] * j + [FR(-1)] + [FR(0)] * (n - 1 - j) for j in range(1, n)]
+            b = [FR(k)] + [FR(0)] * (n - 1)
+            kind = "hair-outside"
+            pts = [[FR(1) + FR(5, 10**11)] + [FR(1)] * (n - 1)]
+            npts = 1
         # points as columns
         P = [[pts[k][r] for k in range(npts)] for r in range(n)]
         it = rng.choice([1, 8, 20])
